@@ -43,7 +43,10 @@ def pool(ctx):
     strs = ["", "a", "abc", "0", "1", "12", "1000000", "-7", "1.5", "0.5", "007", "12.0", "9223372036854775808", "1e5", "0x10", "0X1F", "0b101", "-0x10", "010", " 1", "true", "9223372036854775806", "9223372036854775807", "9007199254740993", "-9223372036854775808", "-9223372036854775809", "1_0", "1_000000", "Inf", "-Inf", "+Inf", "inf", "Infinity", "NaN", "0x1p4", "0x1p-1", "0x.8p1", "1e1", "+10", ".5", "5."]
     vals = [NIL, B(True), B(False)] + [V("nil", s=k) for k in ("chan", "func", "slice", "map", "ptr")] + [V("cplx", l=[0, 0]), V("cplx", l=[1, 0]), V("cplx", l=[1, 2]), V("cplx", l=[0, 2])] + [I(n) for n in ints] + [F(x) for x in floats] + [S(s) for s in strs]
     vals += [L(), L(I(1)), L(I(1), I(2)), L(I(2), I(1)), L(F(1.0)), L(S("a")), L(S("1")), L(L(I(1)), L(I(2))), L(L(I(1)), L(I(3))), L(NIL), L(L()),
-             M(), M((S("a"), I(1))), M((S("a"), I(2))), M((S("b"), I(1))), M((S("a"), I(1)), (S("b"), L(I(1)))), M((S("a"), F(1.0))), M((I(1), S("x")))]
+             M(), M((S("a"), I(1))), M((S("a"), I(2))), M((S("b"), I(1))), M((S("a"), I(1)), (S("b"), L(I(1)))), M((S("a"), F(1.0))), M((I(1), S("x"))),
+             # maps whose key sets differ only at keys that hold nil (a missing key reads as nil too), lists / maps that hold them
+             M((S("a"), NIL)), M((S("b"), NIL)), M((S("a"), NIL), (S("c"), I(1))), M((S("b"), NIL), (S("c"), I(1))), M((S("a"), I(1)), (S("b"), NIL)), L(M((S("a"), NIL))), L(M((S("b"), NIL))),
+             M((S("k"), M((S("a"), NIL)))), M((S("k"), M((S("b"), NIL)))), M((I(1), NIL)), M((I(2), NIL)), L(NIL, NIL), M((S("a"), L())), M((S("a"), M()))]
     if not ctx.quick():
         vals += [I(n) for n in (3, -2, 4095, 4096, 2**31, 2**53 - 1, -(2**53 + 1), 10**18)] + [F(x) for x in (2.0, -1.0, 3.0, 4096.0, 1e20, 5e-324, 1e308, -1e21)] + \
                 [S(s) for s in ("2", "-1", "4096", "1.0", "100000", "2.50", "x1", "1x")] + [L(I(1), L(I(2), L(I(3)))), L(I(1), L(I(2), L(I(4)))), M((S("a"), M((S("b"), I(1))))), M((S("a"), M((S("b"), I(2)))))]
